@@ -2019,7 +2019,31 @@ impl<'a> CompileState<'a> {
                     fields: {
                         let mut value_fields = BTreeMap::new();
                         for (value, expr) in fields {
-                            value_fields.insert(value.inner.clone(), self.expression_value(expr)?);
+                            // Same checks as for struct literals in code: the field must be
+                            // declared and the constant must have the declared type.
+                            let Some(def) = struct_def
+                                .iter()
+                                .find(|def| def.identifier.inner == value.inner)
+                            else {
+                                let note = format!(
+                                    "field `{}` not found in `Struct {}`",
+                                    value.inner, identifier
+                                );
+                                return Err(self.err(NotDefined(note, value.span)));
+                            };
+                            let constant = self.expression_value(expr)?;
+                            let vtype = constant.vtype(expr.span);
+                            if !vtype.fits_type(&def.field_type) {
+                                return Err(self.err(InvalidType::new(
+                                    def.field_type.to_string(),
+                                    Some(def.span()),
+                                    vtype.to_string(),
+                                    expr.span,
+                                )));
+                            }
+                            if value_fields.insert(value.inner.clone(), constant).is_some() {
+                                return Err(self.err(AlreadyDefined::new(value.clone(), value.clone())));
+                            }
                         }
                         value_fields
                     },
